@@ -70,13 +70,14 @@ type scenario struct {
 type ev map[string]interface{}
 
 type recorder struct {
-	mu     sync.Mutex
-	evs    []ev
-	hret   map[string]bool // peers whose handler returned
-	uret   map[string]bool // datagram payloads handled
-	laddr  map[int]string
-	failed map[int]bool
-	wrote  map[int]bool // clients that are through with their writes
+	mu      sync.Mutex
+	evs     []ev
+	hret    map[string]bool // peers whose handler returned
+	uret    map[string]bool // datagram payloads handled
+	laddr   map[int]string
+	failed  map[int]bool
+	wrote   map[int]bool // clients that are through with their writes
+	sclosed map[int]bool // idle clients that saw their connection closed by the relay
 }
 
 func (r *recorder) add(e ev) { r.addf(e, nil) }
@@ -159,7 +160,7 @@ const (
 )
 
 func runScenario(sc scenario, stopTimeout time.Duration) []ev {
-	r := &recorder{hret: map[string]bool{}, uret: map[string]bool{}, laddr: map[int]string{}, failed: map[int]bool{}, wrote: map[int]bool{}}
+	r := &recorder{hret: map[string]bool{}, uret: map[string]bool{}, laddr: map[int]string{}, failed: map[int]bool{}, wrote: map[int]bool{}, sclosed: map[int]bool{}}
 	r.add(ev{"ev": "hist", "id": sc.ID})
 	var l *input.Listener
 	var addr string
@@ -250,7 +251,7 @@ func runScenario(sc scenario, stopTimeout time.Duration) []ev {
 			for {
 				_, err := conn.Read(buf)
 				if err != nil {
-					r.add(ev{"ev": "sclosed", "c": cl.C, "err": errClass(err)})
+					r.addf(ev{"ev": "sclosed", "c": cl.C, "err": errClass(err)}, func() { r.sclosed[cl.C] = true })
 					return
 				}
 			}
@@ -307,6 +308,9 @@ func runScenario(sc scenario, stopTimeout time.Duration) []ev {
 			for _, cl := range sc.Clients {
 				if cl.Phase == ph && !r.failed[cl.C] && !r.wrote[cl.C] {
 					done = false
+				}
+				if cl.Phase == ph && ph == "pre" && cl.End == "idle" && sc.RtMs > 0 && !r.failed[cl.C] && !r.sclosed[cl.C] {
+					done = false // with a read timeout the relay closes idle connections by itself
 				}
 				if cl.Phase == ph && cl.End == "close" && !r.failed[cl.C] {
 					la, ok := r.laddr[cl.C]
